@@ -4,6 +4,7 @@
 package c19
 
 import (
+	"encoding/json"
 	"fmt"
 	"os"
 	"regexp"
@@ -34,7 +35,6 @@ type Case struct {
 type info struct {
 	rejected string
 	shapes   []string
-	excluded string // steered away from a listed finding that would kill the process
 	xgo      []string
 	edges    map[string]bool
 	hash     uint64
@@ -74,11 +74,12 @@ func signature(d string) string {
 	return strings.Join(parts, "/") + ":" + strings.ReplaceAll(kind, " ", "")
 }
 
-// cls builds the verdict class: a source that shows the shape of a listed finding fails as
-// "<kind>/<shape>", any other source as "<kind>" or "<kind>:<signature>".
+// cls builds the verdict class: a source that shows the shape of a listed finding (fmtin.Shapes)
+// fails as "shape/<shape>" whatever the kind of failure, any other source as "<kind>" or
+// "<kind>:<signature>".
 func (in info) cls(kind, sig string) string {
 	if len(in.shapes) > 0 {
-		return kind + "/" + in.shapes[0]
+		return "shape/" + in.shapes[0]
 	}
 	if sig != "" {
 		return kind + ":" + sig
@@ -99,10 +100,6 @@ func check(c Case) (v *vk.Verdict, in info) {
 	}
 	xgo, edges := fmtin.Features(f1)
 	in.xgo, in.edges = fmtin.Keys(xgo), edges
-	if fmtin.OneLineForPhrase(f1, fset1) {
-		in.excluded = "crash-oneline-forphrase"
-		return nil, in
-	}
 	in.shapes = fmtin.Shapes(f1, fset1, c.Src)
 	out, err := format.Source(c.Src, c.Class)
 	if err != nil {
@@ -132,14 +129,16 @@ var (
 )
 
 func run(t failer, c Case, labels ...string) {
-	v, in := check(c)
-	if in.rejected != "" {
-		vk.R.Rejected(in.rejected)
+	// the one shape that ends the process (log.Fatalf in the printer) cannot be evaluated in-process:
+	// it is steered away from here and kept as an isolated regress file
+	if f, fset, err := fmtin.Parse(c.Src, c.Class); err == nil && fmtin.OneLineForPhrase(f, fset) {
+		vk.R.Excluded("crash")
 		vk.R.Case(false, "")
 		return
 	}
-	if in.excluded != "" {
-		vk.R.Excluded(in.excluded)
+	v, in := check(c)
+	if in.rejected != "" {
+		vk.R.Rejected(in.rejected)
 		vk.R.Case(false, "")
 		return
 	}
@@ -158,6 +157,13 @@ func run(t failer, c Case, labels ...string) {
 			surveyN[v.Class+"|"+strings.Join(c.How[:1], "")+"|"+fmt.Sprint(len(c.How) > 1 && strings.Contains(strings.Join(c.How, " "), " perturb"))]++
 			surveyMu.Unlock()
 			vk.R.Class("FAIL " + v.Class)
+			if n == 1 {
+				m := minimise(c, v.Class)
+				if dir := os.Getenv("FMT_DUMP"); dir != "" {
+					js, _ := json.MarshalIndent(map[string]any{"property": "C19", "test": "fmt-tree", "case": m, "note": v.Class}, "", " ")
+					os.WriteFile(dir+"/"+strings.NewReplacer("/", "_", ":", "_").Replace(v.Class)+".json", js, 0o644)
+				}
+			}
 			if n <= 3 {
 				m := minimise(c, v.Class)
 				mv, _ := check(m)
